@@ -248,6 +248,28 @@ where
     doc
 }
 
+/// Emit only the comments attached to a token that is itself not printed (a comma)
+fn emit_trivia_of_token<'a, D, A>(
+    token_index: usize,
+    ctx: &PrintContext,
+    allocator: &'a D,
+) -> DocBuilder<'a, D, A>
+where
+    D: DocAllocator<'a, A>,
+    D::Doc: Clone,
+{
+    let mut doc = allocator.nil();
+    if let Some(idx) = find_preparsed_index(token_index, ctx.preparsed) {
+        for trivia in ctx.preparsed.get_leading_trivia(idx, ctx.tokens) {
+            doc = doc.append(emit_trivia(trivia, ctx.source, allocator));
+        }
+        for trivia in ctx.preparsed.get_trailing_trivia(idx, ctx.tokens) {
+            doc = doc.append(emit_trivia(trivia, ctx.source, allocator));
+        }
+    }
+    doc
+}
+
 /// Emit a trivia token (comment or whitespace)
 fn emit_trivia<'a, D, A>(trivia: &Token, source: &str, allocator: &'a D) -> DocBuilder<'a, D, A>
 where
@@ -1556,6 +1578,8 @@ where
 {
     // Collect items between delimiters, excluding commas
     let mut items: Vec<DocBuilder<'a, D, A>> = Vec::new();
+    // comments attached to the comma that follows item i
+    let mut comma_trivia: Vec<DocBuilder<'a, D, A>> = Vec::new();
     let mut open_doc = allocator.nil();
     let mut close_doc = allocator.nil();
     let mut found_open = false;
@@ -1575,7 +1599,19 @@ where
                     continue;
                 }
                 TokenKind::Comma => {
-                    // Skip commas - we'll add them with proper breaking
+                    // Skip commas - we'll add them with proper breaking - but keep the
+                    // comments attached to them
+                    while comma_trivia.len() + 1 < items.len() {
+                        comma_trivia.push(allocator.nil());
+                    }
+                    let trivia = emit_trivia_of_token(*token_index, ctx, allocator);
+                    if comma_trivia.len() < items.len() {
+                        comma_trivia.push(trivia);
+                    } else if let Some(last) = comma_trivia.pop() {
+                        comma_trivia.push(last.append(trivia));
+                    } else {
+                        open_doc = open_doc.append(trivia);
+                    }
                     continue;
                 }
                 _ => {}
@@ -1609,7 +1645,21 @@ where
     } else {
         // Use softline between items (after comma), but not after opening delimiter
         // This prioritizes breaking at binary operators over breaking at function call boundaries
-        let items_doc = allocator.intersperse(items, breakable_comma(allocator));
+        let count = items.len();
+        let mut items_doc = allocator.nil();
+        for (i, item) in items.into_iter().enumerate() {
+            items_doc = items_doc.append(item);
+            let trivia = comma_trivia.get(i).cloned().unwrap_or_else(|| allocator.nil());
+            if i + 1 < count {
+                items_doc = items_doc
+                    .append(allocator.text(","))
+                    .append(trivia)
+                    .append(allocator.softline());
+            } else {
+                // comments of a trailing comma stay behind the last item
+                items_doc = items_doc.append(trivia);
+            }
+        }
         // Wrap in group for proper line breaking
         open_doc
             .append(items_doc.nest(get_indent_size() as isize))
